@@ -147,3 +147,21 @@ func sortedKeys(m map[string]int) []string {
 }
 
 var _ = ref.MaxDepth
+
+var giantBuf *rjson.Buffer
+
+// giantBuffer returns a Buffer whose stack has been grown beyond the depth limit by a handler
+// traversal (the handler machines have no depth limit of their own) of a 12,000-deep document.
+func giantBuffer() *rjson.Buffer {
+	if giantBuf == nil {
+		giantBuf = &rjson.Buffer{}
+		doc := bytes.Repeat([]byte("["), 12000)
+		doc = append(doc, bytes.Repeat([]byte("]"), 12000)...)
+		_, _ = rjson.HandleArrayValues(doc, rjson.ArrayValueHandlerFunc(func(d []byte) (int, error) { return 0, nil }), giantBuf)
+		odoc := bytes.Repeat([]byte(`{"a":`), 12000)
+		odoc = append(odoc, '1')
+		odoc = append(odoc, bytes.Repeat([]byte("}"), 12000)...)
+		_, _ = rjson.HandleObjectValues(odoc, rjson.ObjectValueHandlerFunc(func(k, d []byte) (int, error) { return 0, nil }), giantBuf)
+	}
+	return giantBuf
+}
